@@ -387,6 +387,7 @@ PROPS.update({
 
 PROPS.update({
     'C07': dict(
+        quick_scale=1,
         extra_modules=['GraphrsModel.Props.C07Model'],
         shrink_seconds=60, shrink_candidates=12,
         thorough_scale=1,
@@ -431,6 +432,7 @@ DEGEN_MODEL = [r'get_node', r'has_node', r'get_edges_for_node', r'get_in_edges_f
 
 PROPS.update({
     'C20': dict(
+        quick_scale=1,
         extra_modules=['GraphrsModel.Props.C20Model'],
         thorough_scale=1,
         gens=[('degen', '-', 864, 864, 0)],
